@@ -276,3 +276,111 @@ def c17e(ctx):
     cc = ctx.fn(CW + ':WMSClient.combined_client')
     ok = any(is_call(x, 'WMSClient') and unparse(keyword(x, 'fwd_req_params')) == 'self.fwd_req_params' for x in cc.walk())
     ctx.check(ok, 'WMSClient.combined_client:keeps-filter', 'a combined client keeps the forward filter', cc)
+
+
+def _res_kind(e, defs, depth=4):
+    """'x' | 'y' | 'min' | 'max' | 'both' | None: which axis resolution(s) an expression stands for"""
+    from ..flow import scoped_defs
+    if isinstance(e, ast.Name) and depth > 0:
+        key, ds = scoped_defs(e, defs)
+        kinds = {_res_kind(v, defs, depth - 1) for v, sel in ds if sel is None}
+        kinds.discard(None)
+        if len(kinds) == 1:
+            return kinds.pop()
+        if isinstance(e, ast.Name) and any(isinstance(sel, int) for v, sel in ds):
+            return None
+    if isinstance(e, ast.Call):
+        n = simple_name(e)
+        if n == 'get_resolution':
+            return 'min'
+        if n in ('min', 'max') and len(e.args) == 2:
+            ks = {_res_kind(a, defs, depth - 1) for a in e.args}
+            return n if ks == {'x', 'y'} else None
+        if n in ('deg_to_m', 'float', 'abs') and e.args:
+            return _res_kind(e.args[0], defs, depth - 1)
+    if isinstance(e, ast.BinOp) and isinstance(e.op, ast.Div):
+        den = unparse(e.right)
+        if den.endswith('[0]'):
+            return 'x'
+        if den.endswith('[1]'):
+            return 'y'
+    if isinstance(e, ast.BinOp) and isinstance(e.op, (ast.Add, ast.Sub, ast.Mult)):
+        for side in (e.left, e.right):
+            k = _res_kind(side, defs, depth - 1)
+            if k:
+                return k
+    return None
+
+
+@rule('C17.f', floor=2)
+def c17f(ctx):
+    """ResolutionRange.contains excludes a request if EITHER axis resolution is outside the range: the coarse bound
+    (min_res) is tested on both axes (or on their max), the fine bound (max_res) on both axes (or on their min)"""
+    fn = ctx.fn('mapproxy/grid.py:ResolutionRange.contains')
+    g = fn.cfg
+    defs = Defs(fn.node)
+    falses = g.find_stmts(lambda s: isinstance(s, ast.Return) and const_value(s.value, 1) is False)
+    found = {'min': None, 'max': None}
+    for r in falses:
+        st = enclosing(g.stmt[r], ast.If)
+        outer = enclosing(st, ast.If)
+        which = 'min' if outer is not None and 'min_res' in unparse(outer.test) else 'max' if outer is not None and 'max_res' in unparse(outer.test) else None
+        if which is None:
+            continue
+        kinds = set()
+        dirs = []
+        for c in [x for x in ast.walk(st.test) if isinstance(x, ast.Compare)]:
+            from ..cfg import norm_cmp
+            at, pol = norm_cmp(c.left, c.ops[0], c.comparators[0])
+            for side, other in ((at.left, at.right), (at.right, at.left)):
+                if which + '_res' in unparse(side):
+                    k = _res_kind(other, defs)
+                    kinds.add(k)
+                    # direction: False when request res is on the far side of the bound
+                    bound_left = side is at.left
+                    dirs.append((bound_left, pol))
+        is_or = not isinstance(st.test, ast.BoolOp) or isinstance(st.test.op, ast.Or)
+        if which == 'min':
+            ok_axes = (kinds == {'x', 'y'} and is_or) or kinds == {'max'}
+            # too coarse: request res >= min_res  <=>  not (res < min_res)
+            ok_dir = bool(dirs) and all(bl == pol for bl, pol in dirs)
+        else:
+            ok_axes = (kinds == {'x', 'y'} and is_or) or kinds == {'min'}
+            # too fine: request res < max_res
+            ok_dir = bool(dirs) and all(bl != pol for bl, pol in dirs)
+        found[which] = (ok_axes and ok_dir, kinds if ok_dir else {'wrong direction'}, st)
+    for which, label in (('min', 'coarse bound min_res'), ('max', 'fine bound max_res')):
+        v = found[which]
+        ctx.check(v is not None and v[0], 'ResolutionRange.contains:%s-both-axes' % which,
+                  'the %s excludes the request when either axis resolution is beyond it' % label, fn, v[2] if v else None,
+                  fail='the %s is tested against %s only: a request with non-square pixels that is out of range on one axis is still sent upstream' % (
+                      label, sorted(k or '?' for k in (v[1] if v else ['nothing']))))
+
+
+@rule('C17.g', floor=3)
+def c17g(ctx):
+    """upstream requests are built on a copy of the shared request template"""
+    n = 0
+    for rel in ('mapproxy/client/wms.py', 'mapproxy/client/arcgis.py', 'mapproxy/client/tile.py', 'mapproxy/client/cgi.py'):
+        if rel not in ctx.repo.modules:
+            continue
+        for f in sorted(ctx.repo.fns_in(rel + ':'), key=lambda f: f.qn):
+            if f.name == '__init__':
+                continue
+            defs = Defs(f.node)
+            # names aliasing self.request_template
+            alias = {nm for nm, ds in defs.defs.items() for v, sel in ds if sel is None and unparse(v) in ('self.request_template',)}
+            stores = [x for x in f.walk() if isinstance(x, (ast.Attribute, ast.Subscript)) and isinstance(x.ctx, ast.Store) and
+                      (unparse(x).startswith('self.request_template.') or any(unparse(x).startswith(a + '.') or unparse(x).startswith(a + '[') for a in alias))]
+            muts = [x for x in f.walk() if isinstance(x, ast.Call) and isinstance(x.func, ast.Attribute) and x.func.attr in ('update', 'set', 'pop', 'setdefault') and
+                    (unparse(x.func.value).startswith('self.request_template') or any(unparse(x.func.value).startswith(a + '.') for a in alias))]
+            copies = [x for x in f.walk() if is_call(x, 'self.request_template.copy')]
+            if not (stores or muts or copies or alias):
+                continue
+            n += 1
+            ctx.check(not stores and not muts, '%s:template-not-mutated' % f.short,
+                      'the shared request template is never written to; parameters are set on a copy', f,
+                      fail='%s writes request parameters into the shared self.request_template (no .copy()): concurrent requests overwrite '
+                           'each other\'s bbox/size/srs before the URL is built' % f.short)
+    if n < 3:
+        raise Undecided('only %d request-template users found' % n)
